@@ -115,8 +115,11 @@ func c13Path(tag string, k int) (expr, url string) {
 		return "base + \"/b" + tag + "\"", "/api/b" + tag
 	case 2:
 		return "inner.Prefix + \"/c" + tag + "\"", "/inner/c" + tag
-	default:
+	case 3:
 		return "local" + tag, "/api/local/" + tag
+	default:
+		// a bare identifier: a local constant shadowing a package-level constant of the same name
+		return "route" + tag, "/shadowing/" + tag
 	}
 }
 
@@ -129,23 +132,27 @@ func HC13_parseEcho() {
 
 	n := 1 + vfChoice("routes", vfParam("C13.routes", 2))
 	var routes []c13Route
-	regs, decls, locals := "", "", ""
+	regs, decls, locals, pkgConsts := "", "", "", ""
 	verbs := []string{"GET", "POST", "PUT", "DELETE"}
 	for i := 0; i < n; i++ {
 		tag := fmt.Sprint(i)
 		r := c13Handler(tag, vfChoice("handler"+tag, 6))
 		r.verb = verbs[vfChoice("verb"+tag, 4)]
-		pk := vfChoice("path"+tag, 4)
+		pk := vfChoice("path"+tag, 5)
 		r.pathExpr, r.url = c13Path(tag, pk)
 		if pk == 3 {
 			locals += "\tconst local" + tag + " = base + \"/local/" + tag + "\"\n"
 		}
+		if pk == 4 {
+			locals += "\tconst route" + tag + " = \"/shadowing/" + tag + "\"\n"
+		}
+		pkgConsts += "const route" + tag + " = \"/package-level/" + tag + "\"\n"
 		regs += "\te." + r.verb + "(" + r.pathExpr + ", " + r.handler + ")\n"
 		decls += r.body
 		routes = append(routes, r)
 	}
 	src := "package routes\n\nimport (\n\t\"example.com/mod/echo\"\n\t\"example.com/mod/inner\"\n)\n\n" +
-		"const base = \"/api\"\n\ntype Input struct {\n\tA int\n\tB string\n}\n\ntype Output struct {\n\tC bool\n}\n\ntype controller struct{}\n\n" +
+		"const base = \"/api\"\n\n" + pkgConsts + "\ntype Input struct {\n\tA int\n\tB string\n}\n\ntype Output struct {\n\tC bool\n}\n\ntype controller struct{}\n\n" +
 		"func QueryParamInt64(c echo.Context, name string) int64 { return 0 }\nfunc QueryParamBool(c echo.Context, name string) bool { return false }\n" +
 		"func FormValueJSON(c echo.Context, name string, dst interface{}) error { return nil }\n\nvar _ = inner.Prefix\n\n" +
 		decls + "\nfunc setup(e *echo.Echo, ct *controller) {\n" + locals + "\te.Group(\"/not-a-route\", nil)\n" + regs + "}\n"
@@ -214,4 +221,53 @@ func HC13_parseEcho() {
 			vfAssert(typeName(g.Contract.InputForm.JSON.Type) == w.jsonType, "C13/json-form-field-type")
 		}
 	}
+}
+
+// HC13_sameName: two controllers declare a method of the same name with different contracts;
+// each registration gets the contract of its own handler (also when one handler is registered twice).
+func HC13_sameName() {
+	echo := vfTypeCheck("example.com/mod/echo", []string{"/m/echo/echo.go"}, []string{c13Echo}, nil)
+	first := vfChoice("first", 2) // which controller is registered first
+	twice := vfChoice("twice", 2) == 1
+	regs := []string{"\te.GET(\"/users\", uc.list)\n", "\te.POST(\"/groups\", gc.list)\n"}
+	body := regs[first] + regs[1-first]
+	if twice {
+		body += regs[first]
+	}
+	src := "package routes\n\nimport \"example.com/mod/echo\"\n\n" +
+		"type User struct{ Name string }\n\ntype Group struct{ Size int }\n\ntype userCtl struct{}\n\ntype groupCtl struct{}\n\n" +
+		"func (userCtl) list(c echo.Context) error {\n\tq := c.QueryParam(\"name\")\n\t_ = q\n\tout := User{}\n\treturn c.JSON(200, out)\n}\n\n" +
+		"func (*groupCtl) list(c echo.Context) error {\n\tvar in Group\n\tif err := c.Bind(&in); err != nil {\n\t\treturn err\n\t}\n\treturn c.NoContent(200)\n}\n\n" +
+		"func setup(e *echo.Echo, uc userCtl, gc *groupCtl) {\n" + body + "}\n"
+	pkg := vfTypeCheck("example.com/mod/routes", []string{"/m/routes/routes.go"}, []string{src}, []*packages.Package{echo})
+	var got []Endpoint
+	panicked, rt, msg := vfCatch(func() { got = ParseEcho(pkg, "/m/routes/routes.go", "") })
+	vfObserve("outcome", msg)
+	vfAssert(!panicked && !rt, "C13/parsing-completes")
+	if panicked {
+		return
+	}
+	n := 2
+	if twice {
+		n = 3
+	}
+	vfAssert(len(got) == n, "C13/one-endpoint-per-registration")
+	if len(got) != n {
+		return
+	}
+	ok := true
+	for i, g := range got {
+		isUser := (i == 0) == (first == 0)
+		if i == 2 {
+			isUser = first == 0
+		}
+		if isUser {
+			ok = ok && g.Url == "/users" && g.Method == "GET" && g.Contract.InputBody == nil && g.Contract.Return != nil &&
+				len(g.Contract.InputQueryParams) == 1 && g.Contract.InputQueryParams[0].Name == "name"
+		} else {
+			ok = ok && g.Url == "/groups" && g.Method == "POST" && g.Contract.InputBody != nil && g.Contract.Return == nil &&
+				len(g.Contract.InputQueryParams) == 0
+		}
+	}
+	vfAssert(ok, "C13/each-registration-carries-the-contract-of-its-own-handler")
 }
